@@ -43,7 +43,7 @@ func checkC05(p *Prog, r *Report) {
 	r.notCovered("value-level correctness of decoded values (C06) and reflect semantics inside the Wrapper (delegated to C20)")
 	r.notCovered("pointer fields loaded from memory (constructor invariants) are not nil-checked by R3")
 
-	runR3(p, r, r3opts{entries: e5, explicit: wrapperDelegation, delegate: wrapperSitesDelegated, assumeGet: true, getNilImpl: implReturningNilIface(p), floorSites: 200, floorFns: 45})
+	runR3(p, r, r3opts{entries: e5, explicit: wrapperDelegation, delegate: wrapperSitesDelegated, assumeGet: true, getNilImpl: implReturningNilIface(p), floorSites: 170, floorFns: 45})
 
 	// A1: who stores Type.NewFunc
 	nStores := 0
